@@ -680,6 +680,12 @@ def check_lib_sequences(ctx, rng, n, batch):
             after = obs_lib(libs[t])
             ops.append([t, s, ow])
             impl.append({'err': err, 'lib': after})
+            # a group first seen must be a copy: the two libraries may not share a correlation object
+            for g in libs[s]:
+                if g in libs[t] and 'thermochem' in libs[s][g] and 'thermochem' in libs[t][g] and \
+                        libs[s][g]['thermochem'] is libs[t][g]['thermochem']:
+                    ctx.violation('after a library merge the two libraries share one correlation object (no copy)',
+                                  dict(inp, group=str(g)), expected='distinct objects', observed='same object')
             ctx.count('libupdate_calls')
             ctx.count('libupdate_' + (err or 'ok'))
             # --- specification, group by group in the order of the source
@@ -787,9 +793,9 @@ def run(ctx):
     for fname, rec in common.load_corpus('C13'):
         ctx.count('corpus')
         replay(ctx, rec)
-    check_sequences(ctx, rng, ctx.n(250, 8000), batch)
-    check_splits(ctx, rng, ctx.n(40, 700), batch)
-    check_lib_sequences(ctx, rng, ctx.n(60, 2000), batch)
+    check_sequences(ctx, rng, ctx.n(800, 10000), batch)
+    check_splits(ctx, rng, ctx.n(120, 900), batch)
+    check_lib_sequences(ctx, rng, ctx.n(200, 2500), batch)
     compare_batch(ctx, batch)
     ctx.assumption('A-ref', True, '%d wholes evaluated at their reference temperature, max relative deviation %.2e' %
                    (_ref_checked[0], _ref_checked[1]))
